@@ -497,6 +497,10 @@ def run(rep, tier="quick", srcdir=None, only=None):
         # width borrowed by a redirected item is returned on every level (shared with C03): a leaked unit strands later barriers / items
         from . import C03
         C03.rule_MP8(rep, prog, q)
+    if want("C03-WL10"):
+        # queues chained onto a workloop: draining more than one item must not fault on the anonymous wlh (shared with C03)
+        from . import C03
+        C03.rule_WL10(rep, prog, q)
     if want("C04-MP4"):
         # the last reader's hand-over: DIRTY when drain-locked, otherwise take over / enqueue (shared with C04)
         from . import C04
